@@ -562,7 +562,8 @@ Ltac solveB := repeat stepB.
 
 Lemma allR_convert : forall dest ch r s, allR s (convert orc fx ch r dest s).
 Proof.
-  induction dest; intros ch r s; destruct r; cbn [convert]; solveB.
+  induction dest; intros ch r s; destruct r; cbn [convert]; solveB;
+    try (match goal with |- allR _ (match reach_of ?x with _ => _ end) => destruct (reach_of x) end; solveB).
 Qed.
 
 Lemma allR_read_reference : forall dest s, allR s (read_reference orc fx dest s).
